@@ -11,12 +11,14 @@ EXTENDS TickMath, Json, IOUtils, TLC
 
 T == ndJsonDeserialize(IOEnv.VERIF_TRACE)
 
-Tol30 == QMk(1, <<1>>, NTen(30))
+(* C06 demands of the price helpers only that they are mutually inverse to within one tick; the price itself is held to
+   1e-9 relative (the code scales by the float 10 ** (d0 - d1), exact only for d0 >= d1: 2e-17 relative otherwise) *)
+Tol9 == QMk(1, <<1>>, NTen(9))
 
 Bad(e) ==
   CASE e.k = "s"  -> IF e.v = SqrtRatioAtTick(e.t) THEN "" ELSE "sqrt_ratio_equals_protocol"
     [] e.k = "f"  -> IF IsTickAtSqrtRatio(e.p, e.t) THEN "" ELSE "tick_is_floor"
-    [] e.k = "pt" -> IF ~QWithin(e.price, TickPrice(e.t, e.d0, e.d1, e.zq), Tol30, Zero) THEN "tick_to_price"
+    [] e.k = "pt" -> IF ~QWithin(e.price, TickPrice(e.t, e.d0, e.d1, e.zq), Tol9, Zero) THEN "tick_to_price"
                      ELSE IF e.back - e.t > 1 \/ e.t - e.back > 1 THEN "price_tick_inverse" ELSE ""
     [] e.k = "n"  -> IF IsNearestUsable(e.t, e.sp, e.r) THEN "" ELSE "nearest_usable"
     [] e.k = "mono" -> IF \A t \in e.a .. (e.b - 1) : NCmp(SqrtRatioAtTick(t), SqrtRatioAtTick(t + 1)) < 0 THEN "" ELSE "strictly_increasing"
